@@ -12,17 +12,18 @@ import (
 )
 
 type Report struct {
-	VC      *VC
-	Prop    string
-	Tier    string
-	Verif   string
-	Sel     *Selected
-	Results []*ObResult
-	Runner  *Runner
-	Start   time.Time
-	LoadT   time.Duration
-	Verbose bool
-	Extra   *ExtraChecks
+	VC         *VC
+	Prop       string
+	Tier       string
+	Verif      string
+	Sel        *Selected
+	Results    []*ObResult
+	Runner     *Runner
+	Start      time.Time
+	LoadT      time.Duration
+	Verbose    bool
+	NoEvidence bool
+	Extra      *ExtraChecks
 }
 
 type Violation struct {
@@ -236,7 +237,7 @@ func (rep *Report) Finish() int {
 		"violations":  len(remaining),
 	}
 	os.MkdirAll(filepath.Join(rep.Verif, "evidence"), 0o755)
-	if rep.Prop != "" && rep.Prop != "all" {
+	if rep.Prop != "" && rep.Prop != "all" && !rep.NoEvidence {
 		data, _ := json.MarshalIndent(ev, "", " ")
 		os.WriteFile(filepath.Join(rep.Verif, "evidence", rep.Prop+".json"), data, 0o644)
 	}
